@@ -31,6 +31,7 @@ def classify_loops(prog, f):
                 continue
             kinds = set()
             adv_ok = True
+            shape_known = True
             for v, pb in steps:
                 v0 = strip_casts(v, ("trunc", "zext", "sext"))
                 k = None
@@ -42,25 +43,49 @@ def classify_loops(prog, f):
                     k = "shift"
                 elif isinstance(v0, Inst) and v0.op == "mul":
                     k = "other"
-                if k is None:
-                    adv_ok = False
+                if k is None and isinstance(v0, Inst) and v0.op == "add" and strip_casts(v0.operands[0], ("trunc", "zext", "sext")) is phi:
+                    st_ = v0.operands[1]
+                    while isinstance(st_, Inst) and st_.op in ("zext", "sext") and getattr(st_.operands[0], "type", "") != "i1":
+                        st_ = st_.operands[0]
+                    if isinstance(st_, Inst) and st_.op in ("zext", "sext") and getattr(st_.operands[0], "type", "") == "i1":
+                        adv_ok = False     # the step is a truth value: 0 on some path
+                if v0 is phi:
+                    adv_ok = False     # carried round the loop unchanged on this path
+                elif k is None:
+                    shape_known = False
                 kinds.add(k)
             # is this phi the one tested by an exit condition?
             tested = False
+
+            def cond_leaves(c, seen=()):
+                """comparisons a (possibly short-circuit: phi of i1, and/or) branch condition is made of"""
+                if not isinstance(c, Inst) or c.id in seen:
+                    return []
+                if c.op == "icmp":
+                    return [c]
+                if c.op in ("phi", "and", "or", "xor", "select", "zext", "trunc"):
+                    out_ = []
+                    for o in (c.operands[1:] if c.op == "select" else c.operands):
+                        out_ += cond_leaves(o, tuple(seen) + (c.id,))
+                    return out_
+                return []
             for tb in tests:
-                c = tb.term.operands[0]
-                if isinstance(c, Inst) and c.op == "icmp":
+                for c in cond_leaves(tb.term.operands[0]):
                     ops = [strip_casts(o, ("trunc", "zext", "sext")) for o in c.operands]
-                    if phi in ops or any(isinstance(o, Inst) and o.op == "add" and strip_casts(o.operands[0], ("trunc", "zext", "sext")) is phi for o in ops):
+                    if phi in ops or any(isinstance(o, Inst) and o.op in ("add", "sub") and
+                                         any(strip_casts(x, ("trunc", "zext", "sext")) is phi for x in o.operands) for o in ops):
                         tested = True
             if tested:
-                rec = (phi, kinds, adv_ok)
+                rec = (phi, kinds, adv_ok, shape_known)
                 break
         calls = {i.callee for bid in body for i in f.bmap[bid].insts if i.op == "call" and i.callee}
         if rec is not None:
-            phi, kinds, adv_ok = rec
+            phi, kinds, adv_ok, shape_known = rec
             kind = "counted(%s)" % "/".join(sorted(k or "?" for k in kinds))
-            if not adv_ok or None in kinds:
+            if adv_ok and not shape_known:
+                out.append(dict(header=hdr, kind="unknown", ok=None, where=where,
+                                detail="the tested variable %s is updated in a way the recogniser does not know" % (phi.name or "phi")))
+            elif not adv_ok:
                 out.append(dict(header=hdr, kind=kind, ok=False, where=where,
                                 detail="the tested variable %s is not advanced on every path through the loop body" % (phi.name or "phi")))
             else:
